@@ -31,7 +31,7 @@ if not want:
     for p in sorted(glob.glob("refactors/*.diff")):
         rc, out = run(p, ["all"])
         status = "silent" if rc == 0 and "VIOLATION" not in out else "ALARM"
-        known = {"24-split-phases-mergeRoots.diff": "known limitation: C23 merge-roles does not follow a split of mergeRoots into helpers"}
+        known = {}  # every behaviour-preserving patch must be silent
         note = known.get(os.path.basename(p), "")
         if status == "ALARM" and not note:
             bad += 1
